@@ -553,3 +553,54 @@ def check_C03(tier, seed):
     cov = base_cov(parts, "IsaacRng / Isaac64Rng from_seed + native next on unit-bit seeds x the complete first block (all 256 indices), structured and random seeds x 3 blocks, long runs past word 10000 (thorough); every word compared by TLC with Jenkins' ISAAC / ISAAC-64 in reference shape (Isaac.tla: mix, randinit(TRUE) with zero-extended seed, isaac(), results consumed from the end); the golden-ratio pre-mix constants are derived in the spec. distinct = distinct recorded events", ["Trace_Alg"])
     vlib.write_evidence("C03", tier, seed, "model_checking", cov, COMMON_ASSUME + ["sampled seeds: ISAAC is non-linear; agreement is established on the corpus, not for all seeds"], time.time() - t0, nviol)
     return 1 if nviol else 0
+
+
+# ---------------------------------------------------------------- C08 / C09
+def run_alg(module, wd, env=None, timeout=1200, workers=1):
+    r = vlib.run_tlc(os.path.join(vlib.SPEC, "alg", module + ".tla"), os.path.join(vlib.SPEC, "alg", module + ".cfg"),
+                     os.path.join(wd, "meta_" + module), env=env, timeout=timeout, workers=workers, xmx="4g")
+    if not r["completed"]:
+        raise ToolError("%s did not complete cleanly (certificate / model level, not the code):\n%s" % (module, r["out"][-3000:]))
+    return r
+
+
+def run_mc(module, cfgname, wd, workers=6, timeout=1500, expect_violation=False):
+    r = vlib.run_tlc(os.path.join(vlib.SPEC, "mc", module + ".tla"), os.path.join(vlib.SPEC, "mc", cfgname),
+                     os.path.join(wd, "meta_" + os.path.basename(cfgname)), workers=workers, timeout=timeout, xmx="6g")
+    if expect_violation:
+        if "is violated" not in r["out"]:
+            raise ToolError("negative control %s did not produce a counterexample" % cfgname)
+    elif not r["completed"]:
+        raise ToolError("%s/%s did not complete cleanly (model level, not the code):\n%s" % (module, cfgname, r["out"][-3000:]))
+    return r
+
+
+def check_C08(tier, seed):
+    import re
+    wd = vlib.workdir("mc-C08")
+    mc = run_mc("MC_Seeding", "MC_Seeding.cfg", wd)
+    run_mc("MC_Seeding", "neg/MC_Seeding_noremap.cfg", wd, expect_violation=True)
+    alg = run_alg("ALG_Seed", wd)
+    adv = [vlib.from_limbs([int(x) for x in m]) for m in re.findall(r'<<(\d+), (\d+), (\d+), (\d+)>>', " ".join(vlib.extract_tuples(alg["out"], "ADVERSARIAL")))]
+    if len(adv) != 8:
+        raise ToolError("ALG_Seed did not print the 8 adversarial arguments")
+    S = corpora.c08_corpus(seed, tier, adv)
+    return trace_check("C08", tier, seed, S, "Trace_Alg.tla", "Trace_Alg.cfg", weight=step_weight,
+                       rule="(1) TLC explores the seeding protocol (module Seeding: zero-seed remap, redraw loop, fallible sources) exhaustively in a small world and checks NeverZeroState / ZeroSeedDocumented / NonZeroSeedVerbatim, with a negative control; (2) TLC checks the certificate that the SplitMix64 finalizer is a bijection with Mix(0)=0, so a seed word of seed_from_u64(x) is zero for exactly one x per position, and prints those 8 arguments; (3) on the real types: the all-zero seed of every size, almost-zero seeds, seed_from_u64 of the adversarial/neighbouring/random arguments, from_rng/try_from_rng from sources with 0..3 leading all-zero blocks — constructed state (serde image), == and first outputs validated by TLC against the same Seeding operators resolved with module Alg. distinct = distinct recorded events",
+                       assumptions=COMMON_ASSUME + ["the protocol is explored exhaustively only in the small world (2-byte seeds over {0,1}); on the real types it is a corpus",
+                                                    "the bijection certificate covers all 2^64 arguments of seed_from_u64 for the xoshiro family"],
+                       extra_cov={"mc_model": {"states_generated": mc["states"], "distinct": mc["distinct"],
+                                               "invariants": ["NeverZeroState", "ZeroSeedDocumented", "NonZeroSeedVerbatim", "ErrIffSourceFailed", "CursorAdvance", "RedrawOnlyOnZeroBlock"],
+                                               "negative_control": "NoRemap=TRUE violates NeverZeroState"},
+                                  "certificate": "ALG_Seed: stage ranks 64/64/64, multiplier inverses, Mix(0)=0, PHI odd, Mix(PHI)#0",
+                                  "adversarial_u64": ["0x%016x" % a for a in adv]})
+
+
+def check_C09(tier, seed):
+    wd = vlib.workdir("mc-C09")
+    mc = run_mc("MC_Seeding", "MC_Seeding.cfg", wd)
+    S = corpora.c09_corpus(seed, tier)
+    return trace_check("C09", tier, seed, S, "Trace_Alg.tla", "Trace_Alg.cfg", weight=step_weight, timeout=3400,
+                       rule="the seeding protocol is model-checked exhaustively in a small world (ErrIffSourceFailed, CursorAdvance, RedrawOnlyOnZeroBlock, from_rng/try_from_rng agreement); on all 19 seedable types: seed_from_u64(x) for boundary and random x must give the generator denoted by the documented expansion (SplitMix64 stream / rand_core's PCG32 / ISAAC key words with one pass) — state image where available and 8..40 outputs; from_rng twice from one source (cursor, exact byte count, 1024/2048 bytes and two passes for ISAAC); try_from_rng against sources failing at call 1/2/3, with partial writes and sticky failures. distinct = distinct recorded events",
+                       assumptions=COMMON_ASSUME + ["u64 arguments and source byte streams are a corpus; the fallible-source space is exhaustive only in the small-world model"],
+                       extra_cov={"mc_model": {"states_generated": mc["states"], "distinct": mc["distinct"]}})
